@@ -3,11 +3,15 @@ CONSTANTS
   NU = 10
   NS = 3
   MaxN = 7
+  CropN = 7
   Sub = 1
   Ext = 8
   ExtNs = {1, 2, 3, 6}
+  ChainNU = 5
+  ChainNs = {1, 2, 3}
   Algo = "arange_int"
   ExtFilter = TRUE
+  RangeFrom = "index"
 CONSTRAINT Export
 INVARIANT ImplCrop
 INVARIANT LawCropContiguous
@@ -20,5 +24,9 @@ INVARIANT LawExtendIsInterval
 INVARIANT ImplExactlyWidth
 INVARIANT ImplPlacement
 INVARIANT LawOffs
+INVARIANT NeverOffLattice
+INVARIANT ImplChain
+INVARIANT LawChainExact
+INVARIANT LawChainKeepsOriginals
 PROPERTY Terminates
 CHECK_DEADLOCK FALSE
